@@ -23,6 +23,10 @@ def build(forest, kind):
         return T.build_api(forest, True)
     if kind == 'api-xhtml':
         return T.build_api(with_ns(forest, (None, 'http://www.w3.org/1999/xhtml')), True)
+    if kind == 'api-html5':
+        # what html5lib produces: an HTML (not XML) document whose elements carry the XHTML namespace, so that the namespace-aware
+        # code paths run with HTML case rules; names are stored exactly as given (html5lib keeps 'viewBox' and friends in mixed case)
+        return T.build_api(with_ns(forest, (None, 'http://www.w3.org/1999/xhtml')), False)
     return T.build_parsed(forest, kind)
 
 
